@@ -166,10 +166,107 @@ TARGETS = [
 ]
 
 
+def tr_project(fn):
+  """utils.project -> (defaults record, merged options record, problem record)"""
+  if [a.arg for a in fn.args.args] != ['p', 'x0', 'bounds', 'constraints', 'solver_options']:
+    U(fn, 'parameters')
+  body = [s for s in fn.body if not (isinstance(s, ast.Expr) and isinstance(s.value, ast.Constant))]
+  if len(body) != 5 or un(body[0]) != 'p = p.flatten()':
+    U(fn, 'project body')
+  opt = body[1]
+  if not (isinstance(opt, ast.Assign) and un(opt.targets[0]) == 'options' and isinstance(opt.value, ast.Dict) and
+          all(isinstance(k, ast.Constant) for k in opt.value.keys)):
+    U(opt, 'options dictionary')
+  d = {k.value: v for k, v in zip(opt.value.keys, opt.value.values)}
+  if set(d) != {'ftol', 'disp', 'maxiter'}:
+    U(opt, 'option keys %s' % sorted(d))
+  def num(e):
+    v = e.value if isinstance(e, ast.Constant) else None
+    if isinstance(v, bool) or not isinstance(v, (int, float)):
+      U(e, 'option value')
+    from fractions import Fraction
+    # the literal as written: 1e-09 is meant as the decimal 10^-9, which is what the model's n1 / 10^9 denotes
+    fr = Fraction(un(e))
+    if fr.numerator == 1:
+      return '(n1 / nofZ %d)' % fr.denominator
+    return '(nofZ %d / nofZ %d)' % (fr.numerator, fr.denominator)
+  if not (isinstance(d['disp'], ast.Constant) and isinstance(d['disp'].value, bool)) or not (isinstance(d['maxiter'], ast.Constant) and isinstance(d['maxiter'].value, int)):
+    U(opt, 'option values')
+  defaults = '{| so_ftol := Some %s; so_maxiter := Some (%d)%%Z; so_disp := Some %s |}' % (num(d['ftol']), d['maxiter'].value, 'true' if d['disp'].value else 'false')
+  if un(body[2]) != 'options.update(solver_options)':
+    U(body[2], 'options update')
+  merged = ('{| so_ftol := over (so_ftol user) (so_ftol project_defaults_gen); so_maxiter := over (so_maxiter user) (so_maxiter project_defaults_gen); '
+            'so_disp := over (so_disp user) (so_disp project_defaults_gen) |}')
+  call = body[3]
+  if not (isinstance(call, ast.Assign) and un(call.targets[0]) == 'o' and isinstance(call.value, ast.Call) and un(call.value.func) == 'minimize' and len(call.value.args) == 2):
+    U(call, 'minimize call')
+  kws = {k.arg: k.value for k in call.value.keywords}
+  if set(kws) != {'method', 'jac', 'options', 'bounds', 'constraints'} or un(kws['method']) != "'SLSQP'" or un(kws['options']) != 'options' or \
+     un(kws['bounds']) != 'bounds' or un(kws['constraints']) != 'constraints' or un(call.value.args[1]) != 'x0':
+    U(call, 'minimize arguments')
+  def lam(l):
+    if not (isinstance(l, ast.Lambda) and [a.arg for a in l.args.args] == ['s', 'p'] and len(l.args.defaults) == 1 and un(l.args.defaults[0]) == 'p'):
+      U(l, 'lambda')
+    return vex(l.body)
+  def vex(e):
+    """-> (term, 'V' | 'S')"""
+    if isinstance(e, ast.Name) and e.id in ('s', 'p'):
+      return ('s_arg' if e.id == 's' else '(pc_p pc)'), 'V'
+    if isinstance(e, ast.BinOp):
+      if isinstance(e.op, ast.Sub):
+        a, b = vex(e.left), vex(e.right)
+        if (a[1], b[1]) == ('V', 'V'):
+          return '(vsub %s %s)' % (a[0], b[0]), 'V'
+      if isinstance(e.op, ast.Add):
+        a, b = vex(e.left), vex(e.right)
+        if (a[1], b[1]) == ('V', 'V'):
+          return '(vadd %s %s)' % (a[0], b[0]), 'V'
+      if isinstance(e.op, ast.Pow) and un(e.right) == '2':
+        a = vex(e.left)
+        if a[1] == 'V':
+          return '(map nsq %s)' % a[0], 'V'
+      if isinstance(e.op, ast.Mult) and isinstance(e.left, ast.Constant) and isinstance(e.left.value, int) and not isinstance(e.left.value, bool):
+        a = vex(e.right)
+        if a[1] == 'V':
+          return '(vscale (nofZ %d) %s)' % (e.left.value, a[0]), 'V'
+      U(e, 'operator')
+    if isinstance(e, ast.Call) and isinstance(e.func, ast.Attribute) and e.func.attr == 'sum' and not e.args and not e.keywords:
+      a = vex(e.func.value)
+      if a[1] == 'V':
+        return '(vsum %s)' % a[0], 'S'
+    U(e, 'expression %s' % un(e))
+  f, j = lam(call.value.args[0]), lam(kws['jac'])
+  if f[1] != 'S' or j[1] != 'V':
+    U(call, 'objective / gradient types %s, %s' % (f[1], j[1]))
+  if un(body[4]) != 'return (o.x.reshape(x0.shape), o)':
+    U(body[4], 'result')
+  problem = ('{| pb_x0 := pc_x0 pc; pb_fun := (fun s_arg => %s); pb_jac := (fun s_arg => %s); pb_bounds := pc_bounds pc; pb_cons := pc_cons pc |}' % (f[0], j[0]))
+  return defaults, merged, problem
+
+
+def gen_project(fns):
+  out, tr, untr = [], [], []
+  try:
+    if 'project' not in fns:
+      raise Unsupported('?:Module:project not found')
+    d, m, pb = tr_project(fns['project'])
+    tr.append('project_gen')
+    out.append('(* utils.py: project *)')
+  except Unsupported as e:
+    d, m, pb = 'uproject_defaults', 'uproject_options user', 'uproject_problem pc'
+    untr.append('project_gen')
+    out.append('(* utils.py: project NOT TRANSLATED (%s): alias of the hand-written model, tie falls back to the correspondence *)' % str(e).replace('*)', '* )'))
+  out.append('Definition project_defaults_gen : sopts A :=\n  %s.\n' % d)
+  out.append('Definition project_options_gen (user : sopts A) : sopts A :=\n  %s.\n' % m)
+  out.append('Definition project_problem_gen (pc : projcall A) : problem A :=\n  %s.\n' % pb)
+  out.append('Definition project_gen (minimize : problem A -> optresult A) (pc : projcall A) : optresult A :=\n  minimize (project_problem_gen pc).\n')
+  return out, tr, untr
+
+
 def gen_utils(repo):
   fname = os.path.join(repo, 'device_kit', 'utils.py')
   out = ['(* GENERATED by translator/utils_tx.py from device_kit/utils.py -- do not edit. *)',
-         'From Coq Require Import ZArith List Bool Arith.', 'From DK Require Import Num Vec.', 'From DK.Model Require Import Leaf SetOps NpOps.',
+         'From Coq Require Import ZArith List Bool Arith.', 'From DK Require Import Num Vec.', 'From DK.Model Require Import Leaf Fn Dev Tree Solve SolveOps SetOps NpOps.',
          'Import ListNotations.', 'Section GenUtils.', 'Context {A : Type} `{Num A}.', 'Local Open Scope num_scope.', '']
   try:
     tree = ast.parse(open(fname).read(), fname)
@@ -190,6 +287,10 @@ def gen_utils(repo):
       untranslated.append(name + '_gen')
       out.append('(* utils.py: %s NOT TRANSLATED (%s): alias of the hand-written model, tie falls back to the correspondence *)' % (name, str(e).replace('*)', '* )')))
     out.append(head + '\n  ' + body + '.\n')
+  po, ptr, puntr = gen_project(fns)
+  out += po
+  translated += ptr
+  untranslated += puntr
   out.append('End GenUtils.')
   out.append('From Coq Require Import String.')
   out.append('Definition utils_translated : list String.string := [%s]%%string.' % '; '.join('"%s"' % x for x in translated))
